@@ -118,6 +118,8 @@ for pid, cls in [('C01','C01'),('C02','C02'),('C03','C03'),('C04','C04'),('C08',
         body += lifted('C04_periodic_refuted','Refuted','C04_periodic_refuted','REFUTED for PeriodicDiskRevolve (D8-C04): PeriodicDiskRevolve(4, 1, uf=1, ub=1, wd=0, rd=1)')
     if pid == 'C03':
         body += lifted('C03_hrevolve_refuted','Refuted','C03_hrevolve_refuted','REFUTED for HRevolve (known finding D8-C03): HRevolve(11, 1, 2, uf=1, ub=1, wd=0, rd=1) holds three DISK checkpoints with two disk units (first monitor error E_budget DISK)')
+    if pid == 'C02':
+        body += lifted('C02_mixed_terminates','MixBridge','mixed_terminates','completeness (Mixed, both planner paths): within N (N + 3) + N + 2 requests the schedule is exhausted (EndReverse has been emitted, by C09_flags), and by then exactly C N S forward steps have been executed')
     for new, mod, name, cm in PARTIAL_SAFETY:
         body += lifted(new % pid, mod, name, cm)
     files[pid] = body
@@ -168,6 +170,7 @@ Print Assumptions C06_cost_is_planner_cost.
 
 """
 mk('C06', ['MixInv','MixDP'], [C06_total,
+   lifted('C06_mixed_terminates','MixBridge','mixed_terminates','... and that point is reached: within N (N + 3) + N + 2 requests the schedule is exhausted with exactly C N S forward steps executed'),
    lifted('C06_plan_1','MixDP','plan_1',''), lifted('C06_plan_ge2','MixDP','plan_ge2','facts of the concrete planner model: the step kind and length it prescribes'),
    lifted('C06_plan_2','MixDP','plan_2',''), lifted('C06_C_ics','MixDP','C_ics','cost recurrence, restart checkpoint'), lifted('C06_C_adj','MixDP','C_adj','cost recurrence, adjoint-dependency checkpoint'),
    lifted('C06_planC_unfold_partial','MixDP','planC_unfold','PARTIAL: the planner value is the minimum over the candidates of its own recurrence (one-level unfolding); that no executable schedule whatsoever does better (Maddison 2024, Thm 1) is not proved')])
@@ -198,6 +201,7 @@ mk('C09', ['MSTerm','OnlineFlags','Flags'], [
    lifted('C09_multistage_flags_on_runs','MultistageRun','multistage_flags','the same rule read on the raise-free Multistage runs of the run theorem (every line: is_running, and is_exhausted = (the action is EndReverse), StopIteration only with is_exhausted)'),
    lifted('C09_mixed_flags_on_runs','MixBridge','mixed_flags','... and on the Mixed runs'),
    lifted('C09_multistage_terminates','AllocTotal','multistage_terminates','the offline Multistage schedule concludes: EndReverse within 6 * TC N S + 1 requests'),
+   lifted('C09_mixed_terminates','MixBridge','mixed_terminates','the offline Mixed schedule concludes: exhausted within N (N + 3) + N + 2 requests'),
    lifted('C09_multistage_terminates_partial','MSTerm','mu_decreases','PARTIAL: termination measure of the Multistage machine decreases at every yielded action (so the final action is reached); "each further pass is an exact repeat of the first" is covered by executability for every k above, the literal equality of passes by correspondence + oracle')])
 mk('C10', ['BasicProofs'], [lifted('C10_online','BasicProofs','C10_online','online, not finalised: finalize(k) succeeds iff 1 <= k <= n, and then fixes max_n = n = k'),
    lifted('C10_known','BasicProofs','C10_known','max_n known: finalize(k) is a no-op iff k = max_n = n; state unchanged in every case'),
